@@ -57,6 +57,12 @@ CLAIMS = {
  "C06": dict(technique="trace validation: recorded (document, serialised bytes) events judged by TLC with the TLA+ recogniser JsonText and value comparison; replay over write-buffer starting capacities",
    text="Documents are parsed from TLC-generated valid texts (all kinds, empty containers as last child, scalar roots, duplicate keys, every byte value in string values and keys, specials at block offsets, wide containers, number-kind boundaries) and re-assembled through the mutation API; each is serialised into write buffers of about 30 starting capacities around the output length and the serializer's estimate (ASan observes the unchecked writes); the recorded output is validated by TLC: JsonText!ParseText accepts it and what it denotes equals the accessor walk of the document, number kinds included and every double reading back to its exact bit pattern; the library must re-parse it to an identical walk and re-serialise the same bytes; a non-finite double planted at every number position must give the infinity error and an empty Dump.",
    note="The independent recogniser the property asks for is the TLA+ module JsonText evaluated by TLC.", ref="4/C06"),
+ "C19": dict(technique="TLC enumeration of (existing value, text) pairs with the R-model SchemaMerge (Gen_Schema.tla; Idempotent model-checked) + replay through Parse + ParseSchema",
+   text="TLC enumerates every pair of duplicate-free values up to a node bound (78k pairs quick: every kind combination at the root and at matched keys, nested objects, undeclared keys) with SchemaMerge(E, V) from the property text; the real Document (pool and freeing allocator, ASan) parses E, applies ParseSchema(V) once and twice, and the accessor walk must equal the expected value each time, Dump must read back. Three recorded deviations of the library (known_findings.json: empty text object vs non-empty existing object; text array holding an object vs existing object, value and memory effect) are reported as KNOWN-FINDING; a failure on a pair none of these causes can act on is a VIOLATION.",
+   note="A pair is attributed to a recorded deviation only from its two input values (scripts/c19.py causes()), never from the observed result.", ref="4/C19, 8"),
+ "C20": dict(technique="TLC enumeration of (target, source) pairs with the R-model LazyMerge (Gen_Schema.tla) + replay through UpdateLazy",
+   text="TLC enumerates every pair of duplicate-free values up to a node bound, including objects whose keys are spelled with escapes (keys matched by decoded value), with LazyMerge(T, S) from the property text; UpdateLazy runs on exact-size heap copies of the two texts under ASan and its result must parse to the expected value.",
+   note="R-model: LazyMerge; the result is read back with the library's own parser (C01/C03 cover it).", ref="4/C20"),
 }
 
 def main():
